@@ -68,3 +68,37 @@ func isIPAddress(addr string) bool {
 func isIPv6(ip string) bool {
 	return strings.Contains(ip, ":")
 }
+
+// indexUnquoted returns the index of the first c in s which is not inside a
+// quoted-string ( RFC 3261 25.1, a display name like "Bob <work>" ), -1 if there is none
+func indexUnquoted(s string, c byte) int {
+	quoted := false
+	for i := 0; i < len(s); i++ {
+		if quoted {
+			if s[i] == '\\' {
+				// quoted-pair: the next character is taken literally
+				i++
+			} else if s[i] == '"' {
+				quoted = false
+			}
+		} else if s[i] == '"' {
+			quoted = true
+		} else if s[i] == c {
+			return i
+		}
+	}
+	return -1
+}
+
+// splitUnquoted cuts s at every sep which is not inside a quoted-string
+func splitUnquoted(s string, sep byte) []string {
+	parts := make([]string, 0)
+	for {
+		pos := indexUnquoted(s, sep)
+		if pos == -1 {
+			return append(parts, s)
+		}
+		parts = append(parts, s[0:pos])
+		s = s[pos+1:]
+	}
+}
